@@ -25,7 +25,8 @@ TRUSTED = [
     '(an association list id -> message/term/function, first registration wins)',
     'numbers are exact decimals = the Display text of the f64; valid for literals with at most 15 significant digits and for every f64/integer '
     'argument (the case carries Rust\'s own Display text, the harness checks it); f64::from_str / Display themselves are trusted',
-    'fmt::Write is an infallible buffer (String); `travelled.contains` is the derived structural PartialEq (read off scope.rs)',
+    'fmt::Write is an infallible buffer (String); Scope::track compares pattern OBJECTS (std::ptr::eq): an object of the bundle is identified '
+    'by its key (term?, id, attribute) — lookups are first-match, so one key is one AST node; the caller\'s pattern is identified by `top`',
     'with_try_get(...).unwrap() on the plural-rules memoizer never fails (PluralRules::construct negotiates against the locales that have rules, default en)',
     'external code as section variables: registered functions, transform, formatter (pure total functions), CLDR rules, custom-type printing, '
     'unescape_unicode (total by C13), f64::from_str; the CLDR tables of Bundle/Plural.v instantiate `rules` in the extraction only',
